@@ -117,7 +117,7 @@ def _print_latex(F, outputfile, split_every=-1, compact=True):
         else:
             text = []
             for c,l in lin:
-                ct=str(c) if c>1 else ""
+                ct = "" if c == 1 else str(c)
                 lt=littext[l]
                 text.append(ct+lt)
             text = " + ".join(text)
